@@ -3,180 +3,94 @@
 from __future__ import annotations
 
 import ast
+import typing as t
 
 from .. import astq
-from ..cfg import CFG, cfg_of
-from ..classflow import Closure
-from ..loader import AnalysisError, BuiltinClass, ClassInfo, FuncInfo, dotted, norm, walk_no_nested
+from ..loader import AnalysisError, ClassInfo, FuncInfo, dotted, norm
 from ..report import Ctx
+from . import _c16_helpers as H
 from ._shared import headerset_insertion_rule, headerset_order_rule, optional_int_rule
 
 LEVEL_TEXT = (
-    "Static decision of structural clauses of C16 on /repo's current source: (R16.1) every dict mutator (typeshed table) of "
-    "every CallbackDict-derived view resolves, in the class's MRO, to a method that performs the operation and then "
-    "notifies on every normally-completing path; (R16.2) every HeaderSet method containing a primitive mutation notifies "
-    "after it; (R16.3) ContentRange and WWWAuthenticate notify after every write of their private state and hand their "
-    "trigger to the parameter dict; (R16.4) a class overriding __setattr__ delegates to the default for every attribute "
-    "that is a property with a setter; (R16.5) each view getter's callback writes / deletes the header it was read from, "
-    "is attached on every return path, and writes the view's own serialisation; whole-property setters write the same "
-    "header; (R16.6) every typed header_property has a load/dump pair from the reasoned inverse table; (R16.7) every "
-    "writer of WWWAuthenticate's scheme applies the constructor's normalisation. It decides these clauses on all "
-    "paths; equality of header text and serialisation after arbitrary histories follows from them only together with "
-    "C06's pairing and is not itself decided."
+    "Static decision of structural clauses of C16 on /repo's current source, by path-wise symbolic execution of the "
+    "engine's CFGs over the inlined call graph of each class (calls on the object resolved in its MRO to any depth, "
+    "decorators applied, property setters / deleters and private module helpers followed, conditions decided on "
+    "constants, flags and membership facts of the path, the callback followed through local aliases): (R16.1) every "
+    "dict mutator (typeshed table) of every CallbackDict-derived view resolves, in the class's MRO, to a method that "
+    "performs a dict mutation and, on every path on which the dict changes, calls the callback with the dict "
+    "afterwards; (R16.2) the same for every public HeaderSet method that changes the list / set, plus per-element "
+    "growth under its own membership test and drop-before-add; (R16.3) ContentRange and WWWAuthenticate call the "
+    "callback after every change of their state (descriptor __set__ / property setters included) and build their "
+    "parameter dicts with a callable that notifies the view; (R16.4) a class overriding __setattr__ hands every name "
+    "that is a property with a setter (or a data descriptor) to the default __setattr__ on every path, decided by "
+    "executing __setattr__ with that name; (R16.5) each view getter attaches its write-back function on every "
+    "return path, and that function - executed for a non-empty and an empty view - ends by writing the view's "
+    "serialisation under the header the getter read, resp. deletes that header (or finds it absent); whole-property "
+    "setters operate on the same header; (R16.6) every typed header property has a load/dump pair from the reasoned "
+    "inverse table (lambdas compared up to parameter names and eta-reduction), the accessor stores dump(value) and "
+    "loads load(item) under its own name, and _set_cache_value agrees with its decision table under every "
+    "consistent valuation; (R16.7) every writer of WWWAuthenticate's scheme attribute stores a lower-cased value like "
+    "the constructor. Equality of header text and serialisation after arbitrary histories follows from these "
+    "clauses only together with C06's pairing and is not itself decided; implicit exceptions and generator bodies "
+    "are not followed."
 )
-TRUSTED = ["CPython ast", "typeshed dict / MutableSet mutator tables", "Python descriptor protocol: a property with a setter is a data descriptor and object.__setattr__ invokes it"]
-ASSUMPTIONS = ["a view whose on_update is None has nothing to notify", "direct header edits between view reads are outside these clauses"]
+TRUSTED = [
+    "CPython ast",
+    "typeshed dict / MutableSet mutator tables",
+    "Python descriptor protocol: a property with a setter is a data descriptor and object.__setattr__ invokes it",
+    "builtin container semantics: dict.pop / set.discard / remove change the container iff the key is present, setdefault iff it is absent",
+]
+ASSUMPTIONS = [
+    "a view whose on_update is None has nothing to notify",
+    "direct header edits between view reads are outside these clauses",
+    "private helpers are reachable only through the public methods of their class (they are judged inlined into their callers)",
+]
 
 PAIRS = {  # reasoned inverse table for typed header properties: (load, dump)
     ("parse_age", "dump_age"), ("int", "str"), ("parse_date", "http_date"), ("parse_set_header", "dump_header"),
-    ("lambda value: COOP(value)", "lambda value: value.value"), ("lambda value: COEP(value)", "lambda value: value.value"),
+    ("COOP", "lambda _0: _0.value"), ("COEP", "lambda _0: _0.value"),
 }
 
 
-def _notify_calls(fn: ast.AST, names=("on_update",), trigger=("_trigger_on_update",)) -> list[ast.Call]:
-    out = []
-    for c in astq.calls(fn, nested=False):
-        f = c.func
-        if isinstance(f, ast.Attribute) and f.attr in names and c.args and norm(c.args[0]) == norm(f.value):
-            out.append(c)  # x.on_update(x)
-        elif isinstance(f, ast.Attribute) and f.attr in trigger and not c.args:
-            out.append(c)
-        elif isinstance(f, ast.Attribute) and f.attr == "_on_update" and c.args and norm(c.args[0]) == norm(f.value):
-            out.append(c)
-    return out
+def _is_public(name: str) -> bool:
+    return not name.startswith("_") or (name.startswith("__") and name.endswith("__"))
 
 
-def _pruned_edges(fi: FuncInfo, cfg: CFG, mutation_nodes) -> list:
-    """false edges that need no notification: `X.on_update is not None`, and
-    change flags (local bool set True next to each mutation, or computed from
-    a membership test before the mutation)."""
-    pruned = []
-    for t_ in cfg.tests():
-        if t_.kind != "test":
-            continue
-        txt = norm(t_.ast)
-        if txt.endswith(".on_update is not None") or txt.endswith("._on_update is not None"):
-            pruned.append((t_, "F"))
-            continue
-        if txt.endswith(".on_update is None") or txt.endswith("._on_update is None"):
-            pruned.append((t_, "T"))
-            continue
-        if isinstance(t_.ast, ast.Name):
-            flag = t_.ast.id
-            defs = astq.assigns_to(fi.node, flag)
-            if not defs:
-                continue
-            ok = True
-            member = all(v is not None and isinstance(v, ast.Compare) and isinstance(v.ops[0], (ast.In, ast.NotIn)) for _, v in defs)
-            if member:
-                # defined from a membership test before any mutation. Which membership state means "nothing
-                # changed" depends on the operation: setdefault changes nothing when the key IS present;
-                # pop / delete / discard / remove change nothing when it is NOT.
-                for s, _ in defs:
-                    dn = cfg.node_of(s)
-                    if dn is None or not all(cfg.node_dominates(dn, m) for m in mutation_nodes):
-                        ok = False
-                ops = set()
-                for m in mutation_nodes:
-                    for c_ in astq.calls(m.ast):
-                        if isinstance(c_.func, ast.Attribute):
-                            ops.add(c_.func.attr)
-                if ops and ops <= {"setdefault"}:
-                    nochange_member = True
-                elif ops and ops <= {"pop", "__delitem__", "remove", "discard", "popitem"}:
-                    nochange_member = False
-                else:
-                    ok = False
-                    nochange_member = None
-                if ok and len(defs) == 1:
-                    v = defs[0][1]
-                    present_when_flag_true = isinstance(v.ops[0], ast.In)  # flag = key in self  /  key not in self
-                    # flag true  -> membership == present_when_flag_true ; flag false -> the opposite
-                    label = "T" if present_when_flag_true == nochange_member else "F"
-                    pruned.append((t_, label))
-                continue
-            else:
-                trues = [s for s, v in defs if isinstance(v, ast.Constant) and v.value is True]
-                falses = [s for s, v in defs if isinstance(v, ast.Constant) and v.value is False]
-                if len(trues) + len(falses) != len(defs) or not trues:
-                    ok = False
-                else:
-                    for m in mutation_nodes:
-                        parent_body = _stmt_list_of(m.ast)
-                        if parent_body is None or not any(any(tr is s for s in parent_body) for tr in trues):
-                            ok = False
-            if ok:
-                pruned.append((t_, "F"))
-    return pruned
+def _collect(repo, cls, fi: FuncInfo, kinds: tuple[str, ...], subject: int | None = 0, args=None, facts0=None, oracle=None):
+    """run the executor over one method and return (outcomes, events of the given kinds in encounter order, executor)."""
+    seen: list[tuple] = []
+
+    def on_event(a, ev, st):
+        if ev[0] in kinds:
+            seen.append(ev)
+        return a
+
+    ex = H.Exec(repo, cls, on_event=on_event, oracle=oracle)
+    outs = ex.run_function(fi, args=args, auto0=None, facts0=facts0, subject=subject)
+    return outs, seen, ex
 
 
-def _stmt_list_of(st: ast.AST | None):
-    cur = st
-    while cur is not None and not isinstance(cur, ast.stmt):
-        cur = astq.parent(cur)
-    p = astq.parent(cur) if cur is not None else None
-    if p is None:
+def _descriptor_set(repo, cls: ClassInfo, value: ast.AST) -> FuncInfo | None:
+    """``name = Descriptor(...)`` in a class body: the package descriptor's __set__ (None when it has none)."""
+    if not isinstance(value, ast.Call):
         return None
-    for fld in ("body", "orelse", "finalbody"):
-        lst = getattr(p, fld, None)
-        if isinstance(lst, list) and any(x is cur for x in lst):
-            return lst
+    f = value.func.value if isinstance(value.func, ast.Subscript) else value.func
+    d = dotted(f)
+    if not d:
+        return None
+    tgt = repo.resolve(cls.module, d)
+    k = repo.try_cls(tgt) if tgt and tgt.startswith("werkzeug") else None
+    if k is None:
+        return None
+    _, what = repo.lookup(k, "__set__")
+    return what if isinstance(what, FuncInfo) else None
+
+
+def _callback_param(fi: FuncInfo) -> int | None:
+    for i, p in enumerate(fi.params):
+        if p == "on_update":
+            return i
     return None
-
-
-def _notifying_helpers(ctx: Ctx, fi: FuncInfo) -> set[str]:
-    """methods of fi's class (MRO) that do nothing but notify on every normal path (`self._notify()` style helpers
-    extracted from `if self.on_update is not None: self.on_update(self)`)."""
-    out: set[str] = set()
-    if fi.cls is None:
-        return out
-    for k in ctx.repo.mro(fi.cls):
-        for name, m in getattr(k, "methods", {}).items():
-            if not isinstance(m, FuncInfo) or m is fi or "." in name:
-                continue
-            direct = _notify_calls(m.node)
-            if not direct:
-                continue
-            c = cfg_of(m)
-            nn = [x for x in (c.node_of(d) for d in direct) if x is not None]
-            pr = _pruned_edges(m, c, [])
-            if c.exit.id not in c.reach(avoid_nodes=nn, avoid_edges=pr):
-                out.add(name)
-    return out
-
-
-def notifies_after(ctx: Ctx, fi: FuncInfo, mutation_asts: list[ast.AST]) -> tuple[bool, str]:
-    """every path from each mutation to an exit passes a notification (modulo pruned edges)."""
-    cfg = cfg_of(fi)
-    mnodes = [n for n in (cfg.node_of(a) for a in mutation_asts) if n is not None]
-    helpers = _notifying_helpers(ctx, fi)
-    selfname = fi.params[0] if fi.params else "self"
-    helper_calls = [c for c in astq.calls(fi.node, nested=False) if isinstance(c.func, ast.Attribute) and isinstance(c.func.value, ast.Name) and c.func.value.id == selfname and c.func.attr in helpers]
-    notes = [cfg.node_of(c) for c in _notify_calls(fi.node) + helper_calls]
-    notes = [n for n in notes if n is not None]
-    if not notes:
-        return False, "no notification call in the method"
-    pruned = _pruned_edges(fi, cfg, mnodes)
-    for m in mnodes:
-        r = cfg.reach(m, avoid_nodes=notes, avoid_edges=pruned)
-        # a notification inside the same statement as the mutation does not count as after
-        if cfg.exit.id in r or cfg.raise_exit.id in r:
-            p = cfg.path(m, cfg.exit, avoid_nodes=notes, avoid_edges=pruned) or cfg.path(m, cfg.raise_exit, avoid_nodes=notes, avoid_edges=pruned)
-            return False, "path from the mutation to an exit without notification: " + (cfg.fmt_path(p) if p else "?")
-    return True, f"{len(mnodes)} mutation site(s), each followed by a notification on every path"
-
-
-def _always_update_ok(ctx: Ctx, repo) -> tuple[bool, str, FuncInfo]:
-    fi = repo.func("datastructures.mixins._always_update")
-    inner = [n for n in fi.node.body if isinstance(n, ast.FunctionDef)]
-    if len(inner) != 1:
-        return False, "no single wrapper", fi
-    w = inner[0]
-    calls_f = [i for i, s in enumerate(w.body) if any(isinstance(c.func, ast.Name) and c.func.id == fi.params[0] for c in astq.calls(s))]
-    notif = [i for i, s in enumerate(w.body) if _notify_calls(s)]
-    ok = bool(calls_f) and bool(notif) and min(notif) > min(calls_f) and any(isinstance(s, ast.Return) for s in w.body)
-    returns_wrapper = any(isinstance(s, ast.Return) and w.name in norm(s) for s in fi.node.body)
-    return ok and returns_wrapper, f"wrapper calls f at stmt {calls_f}, notifies at stmt {notif}", fi
 
 
 def run(ctx: Ctx) -> None:
@@ -193,13 +107,12 @@ def run(ctx: Ctx) -> None:
         ctx.rule(rid, text)
 
     # ---------------- R16.1 ----------------------------------------
-    au_ok, au_fact, au_fi = _always_update_ok(ctx, repo)
-    ctx.ob("R16.1", "_always_update wrapper performs the call, then notifies", au_ok, au_fact, au_fi, au_fi.node, "_always_update wrapper")
     views = [c for c in repo.all_classes() if any(k.name == "UpdateDictMixin" for k in repo.mro(c)) and not any(k.name.startswith("Immutable") for k in repo.mro(c))]
     views = sorted(views, key=lambda c: c.fq)
     ctx.floor("R16.1", "callback dict classes", len(views), 5)
     dict_mut = repo.mutators("dict")
     n = 0
+    wrappers: dict[str, FuncInfo] = {}
     for c in views:
         for name in sorted(dict_mut):
             owner, what = repo.lookup(c, name)
@@ -208,57 +121,52 @@ def run(ctx: Ctx) -> None:
                 ctx.ob("R16.1", f"{c.name}.{name}", False, f"resolves to {owner.name if owner else None}.{name} ({what if isinstance(what, str) else type(what).__name__}): a raw dict mutator, no notification", c.fq, None, f"{c.name}.{name} raw")
                 continue
             ctx.saw(what)
-            decs = what.decorators
-            supers = [cl for cl in astq.calls(what.node, nested=False) if isinstance(cl.func, ast.Attribute) and isinstance(cl.func.value, ast.Call) and dotted(cl.func.value.func) == "super" and cl.func.attr in dict_mut]
-            if any(d.endswith("_always_update") for d in decs):
-                ok = bool(supers) and au_ok
-                ctx.ob("R16.1", f"{c.name}.{name}", ok, f"{owner.name}.{name} is @_always_update and calls super().{supers[0].func.attr if supers else '?'}", what, what.node, f"{c.name}.{name} notifies")
-            else:
-                if not supers:
-                    # may delegate to other notifying methods of the class (self[...] = / self.pop)
-                    cl = Closure(repo, c)
-                    deleg = [nm for nm, _, _ in cl.self_calls(what)]
-                    ok = bool(deleg)
-                    ctx.ob("R16.1", f"{c.name}.{name}", ok, f"delegates to {sorted(set(deleg))}", what, what.node, f"{c.name}.{name} notifies")
-                else:
-                    ok, fact = notifies_after(ctx, what, supers)
-                    ctx.ob("R16.1", f"{c.name}.{name}", ok, f"{owner.name}.{name}: {fact}", what, what.node, f"{c.name}.{name} notifies")
+            r = H.notify_flow(repo, c, what)
+            for d in r.ex._package_decorators(what):
+                wrappers[d.fq] = d
+            fact = r.fact if r.mutates else "no path of the inlined call graph performs a dict mutation"
+            ctx.ob("R16.1", f"{c.name}.{name}", r.mutates and r.ok, f"{owner.name}.{name}: {fact}", what, what.node, f"{c.name}.{name} notifies")
     ctx.floor("R16.1", "mutator x class obligations", n, 40)
+    for d in sorted(wrappers.values(), key=lambda f: f.fq):
+        r = H.notify_wrapper(repo, d)
+        ctx.ob("R16.1", f"{d.name} wrapper performs the call, then notifies", r.ok, r.fact, d, d.node, f"{d.name} wrapper")
     # typed property setters mutate only through the dict protocol
     cc = repo.cls("datastructures.cache_control._CacheControl")
     for nm in ("_set_cache_value", "_del_cache_value"):
         fi = cc.methods.get(nm)
         if fi is None:
             raise AnalysisError(f"_CacheControl.{nm} missing")
-        cl = Closure(repo, cc)
-        prim = cl.prim_sites(fi)
-        raw = [c_ for c_ in astq.calls(fi.node) if isinstance(c_.func, ast.Attribute) and isinstance(c_.func.value, ast.Name) and c_.func.value.id == "dict"]
-        ctx.ob("R16.1", f"_CacheControl.{nm} mutates only through notifying methods", not prim and not raw, f"direct stores: {[s.desc for s in prim]}, dict.* calls: {len(raw)}", fi, fi.node, f"{nm} via protocol")
+        r = H.notify_flow(repo, cc, fi)
+        ctx.ob("R16.1", f"_CacheControl.{nm} mutates only through notifying methods", r.mutates and r.ok, r.fact if r.mutates else "no path changes the dict", fi, fi.node, f"{nm} via protocol")
     _cache_value_table(ctx, cc)
     csp = repo.cls("datastructures.csp.ContentSecurityPolicy")
     for nm in ("_get_value", "_set_value", "_del_value"):
         fi = csp.methods.get(nm)
         if fi is not None:
-            raw = [c_ for c_ in astq.calls(fi.node) if isinstance(c_.func, ast.Attribute) and isinstance(c_.func.value, ast.Name) and c_.func.value.id == "dict"]
-            ctx.ob("R16.1", f"ContentSecurityPolicy.{nm} mutates only through notifying methods", not raw, "", fi, fi.node, f"csp {nm} via protocol")
+            r = H.notify_flow(repo, csp, fi)
+            ctx.ob("R16.1", f"ContentSecurityPolicy.{nm} mutates only through notifying methods", r.ok, r.fact, fi, fi.node, f"csp {nm} via protocol")
     # CallbackDict stores the callback it is given
     cb = repo.cls("datastructures.structures.CallbackDict")
     init = cb.methods["__init__"]
-    ctx.ob("R16.1", "CallbackDict.__init__ stores on_update", any(norm(s) == "self.on_update = on_update" for s in walk_no_nested(init.node) if isinstance(s, ast.Assign)), "", init, init.node, "CallbackDict stores callback")
+    pi = _callback_param(init)
+    if pi is None:
+        raise AnalysisError("CallbackDict.__init__ has no on_update parameter")
+    outs, evs, _ = _collect(repo, cb, init, ("store",))
+    stored = [e for e in evs if e[1] == H.SELF and e[2] in H.CB_ATTRS]
+    ok = bool(stored) and all(e[3] == f"__p{pi}__" for e in stored) and all(o.kind != "ret" or True for o in outs)
+    ctx.ob("R16.1", "CallbackDict.__init__ stores on_update", ok, f"callback attribute stores: {[(e[2], e[3]) for e in stored]}", init, init.node, "CallbackDict stores callback")
 
     # ---------------- R16.2 ----------------------------------------
     hs = repo.cls("datastructures.structures.HeaderSet")
-    cl = Closure(repo, hs)
     n = 0
     for name, fi in sorted(hs.methods.items()):
-        if name == "__init__":
-            continue
-        sites = cl.prim_sites(fi)
-        if not sites:
+        if name == "__init__" or not _is_public(name):
+            continue  # private helpers are judged inlined into their callers
+        r = H.notify_flow(repo, hs, fi)
+        if not r.mutates:
             continue
         n += 1
-        ok, fact = notifies_after(ctx, fi, [s.node for s in sites if s.node is not None])
-        ctx.ob("R16.2", f"HeaderSet.{name} notifies after mutating", ok, fact, fi, fi.node, f"HeaderSet.{name} notifies")
+        ctx.ob("R16.2", f"HeaderSet.{name} notifies after mutating", r.ok, r.fact, fi, fi.node, f"HeaderSet.{name} notifies")
     ctx.floor("R16.2", "HeaderSet mutating methods", n, 5)
     ctx.floor("R16.2", "HeaderSet list growth sites", headerset_insertion_rule(ctx, "R16.2"), 1)
     ctx.floor("R16.2", "HeaderSet methods that drop and add a key", headerset_order_rule(ctx, "R16.2"), 1)
@@ -269,63 +177,75 @@ def run(ctx: Ctx) -> None:
 
     # ---------------- R16.3 ----------------------------------------
     cr = repo.cls("datastructures.range.ContentRange")
-    cp = repo.cls("datastructures.range._CallbackProperty")
-    fi = cp.methods["__set__"]
-    stores = [s for s in walk_no_nested(fi.node) if isinstance(s, ast.Assign) and "__dict__" in norm(s.targets[0])]
-    ok, fact = notifies_after(ctx, fi, stores)
-    ctx.ob("R16.3", "_CallbackProperty.__set__ stores then notifies", bool(stores) and ok, fact, fi, fi.node, "_CallbackProperty.__set__")
-    fi = cr.methods["set"]
-    stores = [s for s in walk_no_nested(fi.node) if isinstance(s, (ast.Assign, ast.AnnAssign)) and any(astq.is_self_attr(t_) for t_ in ([s.target] if isinstance(s, ast.AnnAssign) else s.targets))]
-    ok, fact = notifies_after(ctx, fi, stores)
-    ctx.ob("R16.3", "ContentRange.set stores then notifies", len(stores) >= 4 and ok, fact, fi, fi.node, "ContentRange.set")
-    priv = {"_units", "_start", "_stop", "_length"}
-    for name, m in cr.methods.items():
-        if name in ("set", "__init__"):
+    # the four public attributes are written through something that notifies: a descriptor whose __set__ stores
+    # into the instance and then calls the instance's callback, or a property whose setter does
+    good = []
+    for attr in ("units", "start", "stop", "length"):
+        _, what = repo.lookup(cr, attr)
+        if isinstance(what, FuncInfo):
+            st_ = cr.methods.get(f"{attr}.setter")
+            if st_ is None:
+                ctx.ob("R16.3", f"ContentRange.{attr} is writable and notifies", False, "property without setter", what, what.node, f"ContentRange.{attr} descriptor")
+                continue
+            r = H.notify_flow(repo, cr, st_)
+            okd = r.mutates and r.ok
+            where, fact = st_, r.fact
+        else:
+            ds = _descriptor_set(repo, cr, what) if what is not None else None
+            if ds is None:
+                okd, where, fact = False, cr.fq, "not a descriptor with __set__ nor a property"
+            else:
+                r = H.notify_flow(repo, cr, ds, subject=1)
+                okd, where, fact = r.mutates and r.ok, ds, r.fact if r.mutates else "__set__ does not store into the instance"
+                ctx.ob("R16.3", f"{ds.qualname} stores then notifies", okd, fact, ds, ds.node, ds.qualname)
+        if okd:
+            good.append(attr)
+    ctx.ob("R16.3", "ContentRange attributes are callback properties", sorted(good) == ["length", "start", "stop", "units"], f"{sorted(good)}", cr.fq, None, "ContentRange descriptors")
+    n = 0
+    for name, m in sorted(cr.methods.items()):
+        if name == "__init__" or not _is_public(name) or "." in name:
             continue
-        w = [s for s in walk_no_nested(m.node) if isinstance(s, (ast.Assign, ast.AugAssign, ast.AnnAssign)) and any(astq.is_self_attr(t_) and t_.attr in priv for t_ in ([s.target] if not isinstance(s, ast.Assign) else s.targets))]
-        if w:
-            ctx.ob("R16.3", f"ContentRange.{name} writes private state only through set()", False, norm(w[0]), m, w[0], f"ContentRange.{name} raw write")
-    descs = [k for k, v in cr.attrs.items() if isinstance(v, ast.Call) and dotted(v.func) == "_CallbackProperty"]
-    ctx.ob("R16.3", "ContentRange attributes are callback properties", sorted(descs) == ["length", "start", "stop", "units"], f"{sorted(descs)}", cr.fq, None, "ContentRange descriptors")
-    unset = cr.methods.get("unset")
-    if unset is not None:
-        ctx.ob("R16.3", "ContentRange.unset goes through set()", any(isinstance(c_.func, ast.Attribute) and c_.func.attr == "set" for c_ in astq.calls(unset.node)), "", unset, unset.node, "ContentRange.unset")
+        r = H.notify_flow(repo, cr, m)
+        if not r.mutates:
+            continue
+        n += 1
+        ctx.ob("R16.3", f"ContentRange.{name} stores then notifies", r.ok, r.fact, m, m.node, f"ContentRange.{name}")
+    ctx.floor("R16.3", "ContentRange writers", n, 2)
 
     ctx.floor("R16.3", "ContentRange methods using optional ints", optional_int_rule(ctx, "R16.3", cr), 2)
 
     wa = repo.cls("datastructures.auth.WWWAuthenticate")
-    wpriv = {"_type", "_token", "_parameters"}
     n = 0
+    ncd = 0
     for name, m in sorted(wa.methods.items()):
-        if name == "__init__":
+        if "classmethod" in m.decorators or "staticmethod" in m.decorators:
             continue
-        muts: list[ast.AST] = []
-        for s in walk_no_nested(m.node):
-            if isinstance(s, (ast.Assign, ast.AugAssign)):
-                tg = s.targets if isinstance(s, ast.Assign) else [s.target]
-                for t_ in tg:
-                    if astq.is_self_attr(t_) and t_.attr in wpriv:
-                        muts.append(s)
-                    if isinstance(t_, ast.Subscript) and astq.is_self_attr(t_.value) and t_.value.attr in ("parameters", "_parameters"):
-                        muts.append(s)
-            if isinstance(s, ast.Delete):
-                for t_ in s.targets:
-                    if isinstance(t_, ast.Subscript) and astq.is_self_attr(t_.value) and t_.value.attr in ("parameters", "_parameters"):
-                        muts.append(s)
-        if not muts:
+        # child containers are built with a callback that notifies the view
+        outs, evs, ex = _collect(repo, wa, m, ("construct",))
+        done = set()
+        for e in evs:
+            k = repo.try_cls(repo.resolve(m.module, e[1]) or "") if True else None
+            if k is None or not any(x.name == "UpdateDictMixin" for x in repo.mro(k)) or id(e[-2]) in done:
+                continue
+            done.add(id(e[-2]))
+            _, kinit = repo.lookup(k, "__init__")
+            pi = _callback_param(kinit) if isinstance(kinit, FuncInfo) else None
+            kw = dict(e[3])
+            cbv = kw.get("on_update") or (e[2][pi - 1] if pi is not None and len(e[2]) >= pi else None)
+            ncd += 1
+            if cbv is None:
+                okc, fact = False, "constructed without a callback"
+            else:
+                okc, fact = H.callable_notifies(repo, wa, ex, cbv)
+            ctx.ob("R16.3", f"WWWAuthenticate.{name} builds its parameter dict with the trigger", okc, f"{norm(e[-2])}: {fact}", m, e[-2], f"CallbackDict in {name}")
+        if name == "__init__" or not _is_public(name) and not name.endswith((".setter", ".deleter")):
+            continue
+        r = H.notify_flow(repo, wa, m)
+        if not r.mutates:
             continue
         n += 1
-        ok, fact = notifies_after(ctx, m, muts)
-        ctx.ob("R16.3", f"WWWAuthenticate.{name} notifies after writing", ok, fact, m, m.node, f"WWWAuthenticate.{name} notifies")
+        ctx.ob("R16.3", f"WWWAuthenticate.{name} notifies after writing", r.ok, r.fact, m, m.node, f"WWWAuthenticate.{name} notifies")
     ctx.floor("R16.3", "WWWAuthenticate writers", n, 5)
-    trig = wa.methods.get("_trigger_on_update")
-    ctx.ob("R16.3", "_trigger_on_update calls the callback with the view", trig is not None and any(norm(c_) == "self._on_update(self)" for c_ in astq.calls(trig.node)), "", trig or wa.fq, trig.node if trig else None, "trigger shape")
-    ncd = 0
-    for name, m in wa.methods.items():
-        for c_ in astq.name_calls(m.node, "CallbackDict"):
-            ncd += 1
-            passes = len(c_.args) >= 2 and "_trigger_on_update" in norm(c_.args[1]) or any(kw.arg == "on_update" and "_trigger_on_update" in norm(kw.value) for kw in c_.keywords)
-            ctx.ob("R16.3", f"WWWAuthenticate.{name} builds its parameter dict with the trigger", passes, norm(c_), m, c_, f"CallbackDict in {name}")
     ctx.floor("R16.3", "CallbackDict constructions", ncd, 2)
 
     # ---------------- R16.4 ----------------------------------------
@@ -335,50 +255,22 @@ def run(ctx: Ctx) -> None:
         if sa is None:
             continue
         setters = sorted(k.rsplit(".", 1)[0] for k in c.methods if k.endswith(".setter"))
-        descs = sorted(k for k, v in c.attrs.items() if isinstance(v, ast.Call) and (dotted(v.func) or "").endswith(("_CallbackProperty", "header_property", "environ_property")))
+        descs = sorted(k for k, v in c.attrs.items() if _descriptor_set(repo, c, v) is not None)
         need = setters + descs
-        if not need:
+        if not need or len(sa.params) < 3:
             continue
         n += 1
-        delegated: set[str] = set()
-        excluded: set[str] | None = None  # names that are NOT delegated when the test is "everything except S"
-        generic = False
-        from ..fold import Folder as _Folder
-        from ..guards import canon as _canon, simulate as _simulate
-
-        scfg = cfg_of(sa)
-        name_param = sa.params[1] if len(sa.params) > 1 else "name"
-        member_tests = []
-        for tn in scfg.tests():
-            if tn.kind != "test":
-                continue
-            k, p = _canon(tn.ast)
-            if k.startswith(f"{name_param} in "):
-                cmp_ = tn.ast
-                while isinstance(cmp_, ast.UnaryOp):
-                    cmp_ = cmp_.operand
-                try:
-                    members = set(_Folder(repo).expr(c.module, cmp_.comparators[0]))
-                except Exception:
-                    members = None
-                member_tests.append((k, members))
-            elif "type(self)" in k or "__class__" in k:
-                generic = True
-
-        def delegates(outs) -> bool:
-            return bool(outs) and all(any(n.ast is not None and n.kind == "stmt" and any(isinstance(c_.func, ast.Attribute) and c_.func.attr == "__setattr__" and isinstance(c_.func.value, ast.Call) and dotted(c_.func.value.func) == "super" for c_ in astq.calls(n.ast)) for n in o.passed) for o in outs)
-
-        if len(member_tests) == 1 and member_tests[0][1] is not None:
-            k, members = member_tests[0]
-            if delegates(_simulate(scfg, lambda key: True if key == k else None)):
-                delegated = set(members)
-            if delegates(_simulate(scfg, lambda key: False if key == k else None)):
-                excluded = set(members)
-        elif not member_tests and not generic:
-            generic = delegates(_simulate(scfg, lambda key: None))
         for prop in need:
-            reaches = generic or prop in delegated or (excluded is not None and prop not in excluded)
-            ctx.ob("R16.4", f"{c.name}.__setattr__ reaches the `{prop}` setter", reaches, f"names delegated to the default __setattr__: {sorted(delegated)}{' (+generic class lookup)' if generic else ''}{' ; everything except ' + str(sorted(excluded)) if excluded is not None else ''}", sa, sa.node, f"{c.name}.__setattr__ delegates {prop}")
+            def on_event(a, ev, st, prop=prop):
+                if ev[0] == "setattr" and ev[1] == repr(prop):
+                    return True
+                return a
+
+            ex = H.Exec(repo, c, on_event=on_event)
+            outs = [o for o in ex.run_function(sa, args=[None, repr(prop), None], auto0=False) if o.kind == "ret"]
+            yes = [o for o in outs if o.st.auto]
+            no = [o for o in outs if not o.st.auto]
+            ctx.ob("R16.4", f"{c.name}.__setattr__ reaches the `{prop}` setter", bool(yes) and not no, f"with name={prop!r}: {len(yes)} path(s) hand the name to the default __setattr__ (which runs the data descriptor), {len(no)} do not" + (f" (lines {', '.join(map(str, no[0].st.trail))})" if no and no[0].st.trail else ""), sa, sa.node, f"{c.name}.__setattr__ delegates {prop}")
     ctx.floor("R16.4", "classes overriding __setattr__ with property setters", n, 1)
 
     # ---------------- R16.5 ----------------------------------------
@@ -387,189 +279,312 @@ def run(ctx: Ctx) -> None:
     # ---------------- R16.6 ----------------------------------------
     resp = repo.cls("sansio.response.Response")
     n = 0
+    acc_classes: dict[str, ClassInfo] = {}
     for name, v in sorted(resp.attrs.items()):
         if not isinstance(v, ast.Call):
             continue
         f = v.func.value if isinstance(v.func, ast.Subscript) else v.func
-        if dotted(f) != "header_property":
+        tgt = repo.resolve(resp.module, dotted(f) or "")
+        k = repo.try_cls(tgt) if tgt and tgt.startswith("werkzeug") else None
+        if k is None or not any(x.name == "_DictAccessorProperty" for x in repo.mro(k)):
             continue
-        load = astq.arg_or_kw(v, 2, "load_func")
-        dump = astq.arg_or_kw(v, 3, "dump_func")
+        acc_classes[k.fq] = k
+        _, kinit = repo.lookup(k, "__init__")
+        if not isinstance(kinit, FuncInfo) or "load_func" not in kinit.params or "dump_func" not in kinit.params:
+            raise AnalysisError(f"{k.name}.__init__ has no load_func / dump_func parameters")
+        load = astq.arg_or_kw(v, kinit.params.index("load_func") - 1, "load_func")
+        dump = astq.arg_or_kw(v, kinit.params.index("dump_func") - 1, "dump_func")
         ro = astq.kwarg(v, "read_only")
         if load is None and dump is None:
             continue
         n += 1
-        pair = (norm(load) if load is not None else None, norm(dump) if dump is not None else None)
+        pair = (_canon_func(load) if load is not None else None, _canon_func(dump) if dump is not None else None)
         ok = pair in PAIRS or (ro is not None and norm(ro) == "True" and load is not None)
         ctx.ob("R16.6", f"Response.{name} load/dump pair", ok, f"load={pair[0]} dump={pair[1]}", resp.fq, v, f"Response.{name} pair {pair}")
     ctx.floor("R16.6", "typed header properties", n, 11)
-    da = repo.cls("_internal._DictAccessorProperty")
-    st = da.methods["__set__"]
-    ctx.ob("R16.6", "_DictAccessorProperty.__set__ stores dump_func(value) under its own name", any(norm(s) == "self.lookup(instance)[self.name] = self.dump_func(value)" for s in ast.walk(st.node) if isinstance(s, ast.Assign)), "", st, st.node, "accessor set")
-    gt = da.methods["__get__"]
-    ctx.ob("R16.6", "_DictAccessorProperty.__get__ loads from its own name", any(norm(s) == "value = storage[self.name]" for s in ast.walk(gt.node) if isinstance(s, ast.Assign)) and any("self.load_func(value)" in norm(r) for r in astq.returns_of(gt.node)), "", gt, gt.node, "accessor get")
+    for k in sorted(acc_classes.values(), key=lambda c: c.fq):
+        _accessor(ctx, k)
 
     # ---------------- R16.7 ----------------------------------------
-    init = wa.methods["__init__"]
-    init_low = any(isinstance(s, ast.Assign) and astq.is_self_attr(s.targets[0], "_type") and norm(s.value).endswith(".lower()") for s in ast.walk(init.node))
-    ts = wa.methods.get("type.setter")
-    if ts is None:
-        raise AnalysisError("WWWAuthenticate.type setter missing")
-    set_low = any(isinstance(s, ast.Assign) and astq.is_self_attr(s.targets[0], "_type") and norm(s.value).endswith(".lower()") for s in ast.walk(ts.node))
-    ctx.ob("R16.7", "WWWAuthenticate.type setter lower-cases like the constructor", (not init_low) or set_low, f"constructor lower-cases: {init_low}; setter lower-cases: {set_low}", ts, ts.node, "type setter normal form")
+    _, tg = repo.lookup(wa, "type")
+    if not isinstance(tg, FuncInfo) or wa.methods.get("type.setter") is None:
+        raise AnalysisError("WWWAuthenticate.type property / setter missing")
+    gouts, _, _ = _collect(repo, wa, tg, ())
+    locs = {H.loc_of(o.value) for o in gouts if o.kind == "ret"}
+    if len(locs) != 1 or None in locs:
+        raise AnalysisError(f"WWWAuthenticate.type does not return one private attribute ({sorted(map(str, locs))})")
+    tloc = next(iter(locs))
+    writers: dict[str, tuple[FuncInfo, list[tuple]]] = {}
+    for name, m in sorted(wa.methods.items()):
+        if "classmethod" in m.decorators or "staticmethod" in m.decorators:
+            continue
+        _, evs, _ = _collect(repo, wa, m, ("mut",))
+        w = [e for e in evs if e[1] == tloc and e[2] == "store" and e[-1] is m]
+        if w:
+            writers[name] = (m, w)
+    if "__init__" not in writers or "type.setter" not in writers:
+        raise AnalysisError(f"WWWAuthenticate: constructor / type setter do not store self.{tloc}")
+    init_low = all(H.is_lowered(e[3][0]) for e in writers["__init__"][1])
+    for name, (m, w) in writers.items():
+        if name == "__init__":
+            continue
+        low = all(H.is_lowered(e[3][0]) for e in w)
+        label = "type setter" if name == "type.setter" else name
+        ctx.ob("R16.7", f"WWWAuthenticate.{'type setter' if name == 'type.setter' else name} lower-cases like the constructor", (not init_low) or low, f"constructor stores lower-cased: {init_low}; {label} stores {[e[3][0] for e in w]}", m, m.node, f"{label} normal form")
 
 
-def _header_keys(fn: ast.AST) -> tuple[set[str], set[str], set[str]]:
-    """(read, written, deleted) header names in a function: constants lower-cased, free variables as `$name`."""
-    reads: set[str] = set()
-    writes: set[str] = set()
-    dels: set[str] = set()
+def _canon_func(e: ast.AST) -> str:
+    """canonical text of a load / dump function: module prefixes dropped, ``lambda x: F(x)`` eta-reduced to ``F``,
+    lambda parameters renamed positionally."""
+    if isinstance(e, ast.Lambda) and len(e.args.args) == 1 and not (e.args.vararg or e.args.kwarg or e.args.kwonlyargs or e.args.defaults):
+        p = e.args.args[0].arg
+        b = e.body
+        if isinstance(b, ast.Call) and len(b.args) == 1 and not b.keywords and isinstance(b.args[0], ast.Name) and b.args[0].id == p and not any(isinstance(x, ast.Name) and x.id == p for x in ast.walk(b.func)):
+            return _canon_func(b.func)
+        repl = {id(x): "_0" for x in ast.walk(b) if isinstance(x, ast.Name) and x.id == p}
+        return "lambda _0: " + H.text(H.clone(b, repl))
+    d = dotted(e)
+    if d:
+        return d.rsplit(".", 1)[-1]
+    return norm(e)
 
-    def key(e: ast.AST) -> str | None:
-        s = astq.const_str(e)
-        if s is not None:
-            return s.lower()
-        if isinstance(e, ast.Name):
-            return f"${e.id}"
-        return None
 
-    for n in ast.walk(fn):
-        if isinstance(n, ast.Call) and isinstance(n.func, ast.Attribute) and astq.is_self_attr(n.func.value, "headers"):
-            if n.func.attr in ("get", "getlist", "get_all") and n.args:
-                k = key(n.args[0])
-                if k:
-                    reads.add(k)
-            if n.func.attr in ("set", "add", "setlist") and n.args:
-                k = key(n.args[0])
-                if k:
-                    writes.add(k)
-            if n.func.attr in ("pop", "remove") and n.args:
-                k = key(n.args[0])
-                if k:
-                    dels.add(k)
-        if isinstance(n, ast.Subscript) and astq.is_self_attr(n.value, "headers"):
-            k = key(n.slice)
-            if k:
-                if isinstance(n.ctx, ast.Store):
-                    writes.add(k)
-                elif isinstance(n.ctx, ast.Del):
-                    dels.add(k)
-                else:
-                    reads.add(k)
-    return reads, writes, dels
+def _accessor(ctx: Ctx, k: ClassInfo) -> None:
+    """the accessor descriptor stores dump_func(value) under its own name in the object's header storage and loads
+    load_func(<the item under its own name>) from the same storage."""
+    repo = ctx.repo
+    _, st = repo.lookup(k, "__set__")
+    _, gt = repo.lookup(k, "__get__")
+    if not isinstance(st, FuncInfo) or not isinstance(gt, FuncInfo):
+        raise AnalysisError(f"{k.name} has no __set__ / __get__")
+    tag = "" if k.name == "header_property" else f"{k.name} "
+    bad: list[str] = []
+    storages: set[str] = set()
+    for dump_none in (False, True):
+        outs, evs, _ = _collect(repo, k, st, ("storeitem",), facts0={"__self__.dump_func is None": dump_none, "__self__.read_only": False, "__self__.dump_func": not dump_none})
+        rets = [o for o in outs if o.kind == "ret"]
+        stores = {(e[1], e[2], e[3]) for e in evs}
+        want = "__p2__" if dump_none else "__self__.dump_func(__p2__)"
+        if not rets or len(stores) != 1:
+            bad.append(f"dump_func {'absent' if dump_none else 'present'}: stores {sorted(stores)}")
+            continue
+        obj, idx, val = next(iter(stores))
+        storages.add(obj)
+        if idx != "__self__.name" or val != want:
+            bad.append(f"dump_func {'absent' if dump_none else 'present'}: stores `{val}` under `{idx}` (expected `{want}` under `self.name`)")
+    ctx.ob("R16.6", f"{tag}_DictAccessorProperty.__set__ stores dump_func(value) under its own name", not bad, "; ".join(bad) or f"storage {sorted(storages)}", st, st.node, f"{tag}accessor set")
+    outs, _, _ = _collect(repo, k, gt, (), facts0={"__p1__ is None": False, "__self__.load_func is None": False, "__self__.load_func": True})
+    vals = sorted({o.value for o in outs if o.kind == "ret"})
+    loaded = []
+    for v in vals:
+        n = H.P(v)
+        if isinstance(n, ast.Call) and H.text(n.func) == "__self__.load_func" and len(n.args) == 1:
+            a = n.args[0]
+            item = (isinstance(a, ast.Subscript) and H.text(a.slice) == "__self__.name" and H.text(a.value) in storages) or (
+                isinstance(a, ast.Call) and isinstance(a.func, ast.Attribute) and a.func.attr in ("get", "pop") and a.args and H.text(a.args[0]) == "__self__.name" and H.text(a.func.value) in storages
+            )
+            loaded.append(bool(item))
+    raw = [v for v in vals if any(v == f"{s_}[__self__.name]" for s_ in storages)]
+    ok = bool(loaded) and all(loaded) and not raw
+    ctx.ob("R16.6", f"{tag}_DictAccessorProperty.__get__ loads from its own name", ok, f"returns {vals}", gt, gt.node, f"{tag}accessor get")
+
+
+WRITE_OPS = {"__setitem__", "set", "add", "setlist", "add_header", "setdefault", "setlistdefault"}
+DELETE_OPS = {"__delitem__", "pop", "remove", "popitem", "clear"}
+READ_OPS = {"get", "getlist", "get_all", "__getitem__"}
+BUILTIN_TYPES = {"list", "str", "dict", "tuple", "set", "bytes", "int", "bool", "float"}
+
+
+def _hkey(term: str) -> str:
+    """header name of a key term: constants case-folded, anything else (a closure variable) as its term."""
+    c = H.const_of(term)
+    return c.lower() if isinstance(c, str) else term
+
+
+def _header_auto(a, ev, st):
+    """automaton of the header rules: the ordered header operations of the path (bounded), reads and callback stores."""
+    ops, reads, stores = a
+    if ev[0] == "op" and ev[1] == "headers":
+        if ev[2] in WRITE_OPS and len(ev[3]) >= 2:
+            ops = (ops + (("W", _hkey(ev[3][0]), ev[3][1]),))[-8:]
+        elif ev[2] in DELETE_OPS:
+            ops = (ops + (("D", _hkey(ev[3][0]) if ev[3] else "*", ""),))[-8:]
+    elif ev[0] == "read" and ev[1] == "headers" and ev[2] in READ_OPS and ev[3]:
+        reads = reads | {_hkey(ev[3][0])}
+    elif ev[0] == "store" and ev[2] in H.CB_ATTRS:
+        stores = stores | {(ev[1], ev[3])}
+    return (ops, reads, stores)
+
+
+def _view_oracle(key: str):
+    m = H.re.match(r"^isinstance\(__view__, (\w+)\)$", key)
+    if m and m.group(1) in BUILTIN_TYPES:
+        return False  # the callback receives the view object (a package class), never a builtin container
+    return None
+
+
+def _fn_names(term: str, ex) -> list[str]:
+    """function values (local functions, bound methods of the response) that occur in a term, e.g. as a call argument."""
+    return [x.id for x in ast.walk(H.P(term)) if isinstance(x, ast.Name) and x.id in ex.fns and (ex.fns[x.id].kind == "closure" or ex.fns[x.id].bound == H.SELF)]
+
+
+def _is_serialisation(value: str) -> str | None:
+    """'exact': the header text is the view's own serialisation; 'mixed': it is computed from the view and other
+    state (the header is not the view alone, so an empty view does not mean an absent header); None otherwise."""
+    n = H.P(value)
+    if isinstance(n, ast.Call) and isinstance(n.func, ast.Attribute) and n.func.attr == "to_header" and H.text(n.func.value) == "__view__" and not n.args:
+        return "exact"
+    if isinstance(n, ast.Call) and dotted(n.func) == "str" and len(n.args) == 1 and H.text(n.args[0]) == "__view__":
+        return "exact"
+    if isinstance(n, ast.Call) and (dotted(n.func) or "").rsplit(".", 1)[-1] == "dump_options_header" and len(n.args) == 2 and H.text(n.args[1]) == "__view__":
+        return "mixed"
+    return None
 
 
 def _views(ctx: Ctx) -> None:
     repo = ctx.repo
     mod = repo.module("sansio.response")
     resp = repo.cls("sansio.response.Response")
-    getters: list[tuple[str, FuncInfo, ast.AST]] = []
-    # property getters on Response with a nested on_update
-    for name, fi in resp.methods.items():
-        if "." in name:
+    # (label, where, executor with the getter's closures, outcomes of the getter, setter function value or FuncInfo)
+    getters: list[tuple[str, FuncInfo, t.Any, list, t.Any]] = []
+    for name, fi in sorted(resp.methods.items()):
+        if "." in name or not any(d == "property" or d.endswith(".property") for d in fi.decorators):
             continue
-        nested = [x for x in fi.node.body if isinstance(x, ast.FunctionDef) and x.name == "on_update"]
-        if nested:
-            getters.append((name, fi, fi.node))
-    # _set_property's fget
-    sp = mod.functions.get("_set_property")
-    if sp is None:
-        raise AnalysisError("_set_property missing")
-    for x in sp.node.body:
-        if isinstance(x, ast.FunctionDef) and any(isinstance(y, ast.FunctionDef) and y.name == "on_update" for y in x.body):
-            getters.append(("_set_property.fget", sp, x))
+        ex = H.Exec(repo, resp, on_event=_header_auto)
+        outs = [o for o in ex.run_function(fi, auto0=((), frozenset(), frozenset())) if o.kind == "ret"]
+        local_fn = any(isinstance(x, (ast.FunctionDef, ast.Lambda)) for x in ast.walk(fi.node) if x is not fi.node)
+        hands_out_fn = any(_fn_names(o.value, ex) or any(v in ex.fns for _, v in o.st.auto[2]) for o in outs)
+        if not local_fn and not hands_out_fn:
+            continue
+        # a getter that defines a local function is a view getter: the function is the write-back callback (whether
+        # every return path attaches it is an obligation below, not a matter of recognition)
+        getters.append((name, fi, ex, outs, resp.methods.get(f"{name}.setter")))
+    # module-level property factories: f(name, ...) -> property(fget, fset)
+    n_uses = 0
+    for fname, sp in sorted(mod.functions.items()):
+        rets = [r for r in astq.returns_of(sp.node) if isinstance(r.value, ast.Call) and dotted(r.value.func) == "property"]
+        if not rets:
+            continue
+        uses = [k for k, v in resp.attrs.items() if isinstance(v, ast.Call) and dotted(v.func) == fname]
+        if not uses:
+            continue
+        ex = H.Exec(repo, resp, on_event=_header_auto)
+        fouts = [o for o in ex.run_function(sp, auto0=((), frozenset(), frozenset()), subject=None) if o.kind == "ret"]
+        for o in fouts:
+            pn = H.P(o.value)
+            if not (isinstance(pn, ast.Call) and pn.args):
+                raise AnalysisError(f"{fname} does not return property(fget, ...)")
+            fget = H.text(pn.args[0])
+            fset = H.text(pn.args[1]) if len(pn.args) > 1 else next((H.text(k.value) for k in pn.keywords if k.arg == "fset"), None)
+            if fget not in ex.fns:
+                raise AnalysisError(f"{fname}: fget is not a local function")
+            gouts = [g for g in ex.run_fn(fget, [H.SELF], auto0=((), frozenset(), frozenset())) if g.kind == "ret"]
+            fnode = ex.fns[fget].node
+            if any(isinstance(x, (ast.FunctionDef, ast.Lambda)) for x in ast.walk(fnode) if x is not fnode):
+                n_uses += len(uses)
+                getters.append((f"{fname}.fget", sp, ex, gouts, fset))
     ctx.floor("R16.5", "view getters", len(getters), 7)
-    uses = [k for k, v in resp.attrs.items() if isinstance(v, ast.Call) and dotted(v.func) == "_set_property"]
-    ctx.floor("R16.5", "_set_property instances", len(uses), 3)
+    ctx.floor("R16.5", "_set_property instances", n_uses, 3)
 
-    for name, fi, fn in getters:
-        cb = [x for x in fn.body if isinstance(x, ast.FunctionDef) and x.name == "on_update"][0]
-        body_wo_cb = ast.Module(body=[s for s in fn.body if s is not cb], type_ignores=[])
-        reads, _, _ = _header_keys(body_wo_cb)
-        r2, writes, dels = _header_keys(cb)
-        # callback may assign the whole property: follow Response.<prop> setter/deleter one level
-        for s in ast.walk(cb):
-            if isinstance(s, ast.Assign) and astq.is_self_attr(s.targets[0]) and f"{s.targets[0].attr}.setter" in resp.methods:
-                st = resp.methods[f"{s.targets[0].attr}.setter"]
-                _, w2, d2 = _header_keys(st.node)
-                writes |= w2
-                dels |= d2
-                dl = resp.methods.get(f"{s.targets[0].attr}.deleter")
-                if dl is not None:
-                    _, _, d3 = _header_keys(dl.node)
-                    dels |= d3
-        ok_names = len(reads) == 1 and writes == reads and (not dels or dels == reads)
-        ctx.ob("R16.5", f"{name}: callback writes back the header that was read", ok_names, f"read {sorted(reads)}, written {sorted(writes)}, deleted {sorted(dels)}", fi, cb, f"{name} header names")
-        # delete edge for an empty view (mimetype_params: Content-Type is never removed by emptying its parameters)
-        if name != "mimetype_params":
-            ctx.ob("R16.5", f"{name}: empty view deletes the header", bool(dels), f"deleted {sorted(dels)}", fi, cb, f"{name} delete edge")
-        # set edge writes the view's serialisation
-        param = cb.args.args[0].arg if cb.args.args else None
-        ser = False
-        for s in ast.walk(cb):
-            if isinstance(s, ast.Assign):
-                tg = s.targets[0]
-                if isinstance(tg, ast.Subscript) and astq.is_self_attr(tg.value, "headers"):
-                    v = norm(s.value)
-                    ser = ser or v == f"{param}.to_header()" or (v.startswith("dump_options_header(") and v.endswith(f", {param})"))
-                elif astq.is_self_attr(tg) and f"{tg.attr}.setter" in resp.methods and astq.is_name(s.value, param):
-                    st = resp.methods[f"{tg.attr}.setter"]
-                    ser = ser or any("value.to_header()" in norm(c_) for c_ in astq.calls(st.node))
-        ctx.ob("R16.5", f"{name}: callback writes the view's serialisation", ser, f"callback parameter `{param}`", fi, cb, f"{name} serialisation")
-        # callback attached on every return path
-        rets = [r for r in ast.walk(body_wo_cb) if isinstance(r, ast.Return)]
-        attached_stmt = [s for s in fn.body if isinstance(s, ast.Assign) and norm(s.targets[0]).endswith("._on_update") and astq.is_name(s.value, "on_update")]
-        all_ok = bool(rets)
-        for r in rets:
-            v = r.value
-            if isinstance(v, ast.Call):
-                ok = _passes_cb(v)
-            elif isinstance(v, ast.Name):
-                defs = [d for _, d in astq.assigns_to(fn, v.id)]
-                ok = bool(defs) and all(isinstance(d, ast.Call) and _passes_cb(d) for d in defs if d is not None)
-                if attached_stmt and astq.is_name(attached_stmt[0].targets[0].value, v.id) and attached_stmt[0].lineno < r.lineno:  # type: ignore[attr-defined]
-                    ok = True
-            else:
-                ok = False
-            all_ok = all_ok and ok
-        ctx.ob("R16.5", f"{name}: callback attached on every return path", all_ok, f"{len(rets)} return(s)", fi, fn, f"{name} callback attached")
-
-    # whole-property setters write the getter's header
-    for prop in ("content_range", "content_security_policy", "content_security_policy_report_only", "www_authenticate"):
-        g = resp.methods.get(prop)
-        s = resp.methods.get(f"{prop}.setter")
-        if g is None or s is None:
-            raise AnalysisError(f"Response.{prop} getter/setter missing")
-        gr, _, _ = _header_keys(ast.Module(body=[x for x in g.node.body if not isinstance(x, ast.FunctionDef)], type_ignores=[]))
-        _, sw, sd = _header_keys(s.node)
-        d = resp.methods.get(f"{prop}.deleter")
-        if d is not None:
-            _, _, dd = _header_keys(d.node)
-            sd |= dd
-        ctx.ob("R16.5", f"Response.{prop} setter writes the getter's header", sw == gr and (not sd or sd == gr), f"getter reads {sorted(gr)}, setter writes {sorted(sw)} deletes {sorted(sd)}", s, s.node, f"{prop} setter header")
-    for x in sp.node.body:
-        if isinstance(x, ast.FunctionDef) and x.name == "fset":
-            _, sw, sd = _header_keys(x)
-            ctx.ob("R16.5", "_set_property setter writes its own header", sw == {"$name"} and sd == {"$name"}, f"writes {sorted(sw)} deletes {sorted(sd)}", sp, x, "_set_property setter header")
-
-
-def _passes_cb(c: ast.Call) -> bool:
-    return any(astq.is_name(a, "on_update") for a in c.args) or any(astq.is_name(k.value, "on_update") for k in c.keywords)
+    for name, fi, ex, outs, setter in getters:
+        # ---- callback attached on every return path; header read by the getter
+        cbs: set[str] = set()
+        attached_everywhere = bool(outs)
+        reads: set[str] = set()
+        for o in outs:
+            mine = set(_fn_names(o.value, ex)) | {v for obj, v in o.st.auto[2] if obj == o.value and v in ex.fns}
+            attached_everywhere = attached_everywhere and bool(mine)
+            cbs |= mine
+            reads |= set(o.st.auto[1])
+        cbfn = ex.fns[sorted(cbs)[0]] if cbs else None
+        cbnode = (cbfn.node or (cbfn.fi.node if cbfn.fi else None)) if cbfn is not None else fi.node
+        ctx.ob("R16.5", f"{name}: callback attached on every return path", attached_everywhere and len(cbs) == 1, f"{len(outs)} return path(s); callback(s) {sorted(cbs)}", fi, fi.node, f"{name} callback attached")
+        if not cbs:
+            continue  # reported above: nothing is attached
+        if len(cbs) != 1 or len(reads) != 1:
+            ctx.ob("R16.5", f"{name}: callback writes back the header that was read", False, f"getter reads {sorted(reads)}, callbacks {sorted(cbs)}", fi, cbnode, f"{name} header names")
+            continue
+        hdr = next(iter(reads))
+        cb = next(iter(cbs))
+        # ---- decision of the callback on the view's truthiness (and the header's presence)
+        ex2 = H.Exec(repo, resp, on_event=_header_auto, oracle=_view_oracle)
+        ex2.fns = dict(ex.fns)
+        rows = {}
+        for truthy in (True, False):
+            rows[truthy] = [o for o in ex2.run_fn(cb, ["__view__"], auto0=((), frozenset(), frozenset()), facts0={"__view__": truthy}) if o.kind == "ret"]
+        names_ok, ser_ok, del_ok = True, True, True
+        kinds: set[str | None] = set()
+        why: list[str] = []
+        for o in rows[True]:
+            ops = o.st.auto[0]
+            if not ops or ops[-1][0] != "W":
+                names_ok = False
+                why.append("a non-empty view does not end by writing the header")
+                continue
+            if any(k != hdr for _, k, _ in ops):
+                names_ok = False
+                why.append(f"non-empty view: header operations on {sorted({k for _, k, _ in ops})}, getter reads {hdr!r}")
+            kinds.add(_is_serialisation(ops[-1][2]))
+            if _is_serialisation(ops[-1][2]) is None:
+                ser_ok = False
+                why.append(f"writes `{ops[-1][2]}`, not the view's serialisation")
+        mixed = kinds == {"mixed"}
+        for o in rows[False]:
+            ops = o.st.auto[0]
+            if any(k != hdr and k != "*" for _, k, _ in ops):
+                names_ok = False
+                why.append(f"empty view: header operations on {sorted({k for _, k, _ in ops})}, getter reads {hdr!r}")
+            if mixed:
+                continue
+            if any(kind == "W" for kind, _, _ in ops):
+                del_ok = False
+                why.append("an empty view still writes the header")
+            elif not any(kind == "D" for kind, _, _ in ops):
+                absent = any(v is False and k.endswith(" in __self__.headers") and _hkey(k[: -len(" in __self__.headers")]) == hdr for k, v in o.st.facts.items())
+                if not absent:
+                    del_ok = False
+                    why.append("an empty view leaves a present header in place")
+        if not rows[True] or not rows[False]:
+            names_ok = False
+            why.append("the callback has no normally-completing path")
+        fact = f"getter reads {hdr!r}; non-empty view: {sorted({o.st.auto[0] for o in rows[True]})}; empty view: {sorted({o.st.auto[0] for o in rows[False]})}" + ("; " + "; ".join(why[:2]) if why else "")
+        ctx.ob("R16.5", f"{name}: callback writes back the header that was read", names_ok, fact, fi, cbnode, f"{name} header names")
+        if not mixed:
+            ctx.ob("R16.5", f"{name}: empty view deletes the header", del_ok, fact, fi, cbnode, f"{name} delete edge")
+        ctx.ob("R16.5", f"{name}: callback writes the view's serialisation", ser_ok and bool(kinds), fact, fi, cbnode, f"{name} serialisation")
+        # ---- the whole-property setter writes the getter's header
+        if setter is None:
+            continue
+        ex3 = H.Exec(repo, resp, on_event=_header_auto)
+        ex3.fns = dict(ex.fns)
+        if isinstance(setter, FuncInfo):
+            souts = ex3.run_function(setter, auto0=((), frozenset(), frozenset()))
+            where, snode, label, cons = setter, setter.node, f"Response.{name} setter writes the getter's header", f"{name} setter header"
+        else:
+            if setter not in ex3.fns:
+                continue
+            souts = ex3.run_fn(setter, [H.SELF, "__value__"], auto0=((), frozenset(), frozenset()))
+            where, snode, label, cons = fi, ex3.fns[setter].node, f"{name.split('.')[0]} setter writes its own header", f"{name.split('.')[0]} setter header"
+        souts = [o for o in souts if o.kind == "ret"]
+        keys = {k for o in souts for _, k, _ in o.st.auto[0]}
+        writes = any(kind == "W" for o in souts for kind, _, _ in o.st.auto[0])
+        ctx.ob("R16.5", label, writes and keys == {hdr}, f"getter reads {hdr!r}, setter operates on {sorted(keys)}", where, snode, cons)
 
 
 def _cache_value_table(ctx: Ctx, cc: ClassInfo) -> None:
-    """decision table of _CacheControl._set_cache_value: a boolean directive is present iff the assigned value is
-    truthy; any other directive is removed by None / False, valueless for True, and stores str(value) otherwise."""
-    from ..guards import atom, decision_table
+    """decision table of _CacheControl._set_cache_value(key, value, type), decided by executing the method (and what
+    it calls) under every consistent valuation of the atoms over its positional parameters: a boolean directive is
+    present iff the assigned value is truthy; any other directive is removed by None / False, valueless for True,
+    and stores str(value) otherwise."""
+    import itertools
 
+    repo = ctx.repo
     fi = cc.methods["_set_cache_value"]
-    cfg = cfg_of(fi)
-    BOOL = atom("type is bool")[0]
-    TRUTHY = atom("value")[0]
-    NONE = atom("value is None")[0]
-    FALSE = atom("value is False")[0]
-    TRUE = atom("value is True")[0]
-    TYPED = atom("type is None")[0]
+    if len(fi.params) < 4:
+        raise AnalysisError("_set_cache_value(self, key, value, type) expected")
+    V, T = "__p2__", "__p3__"
+    BOOL, TRUTHY, NONE, FALSE, TRUE, TYPED = f"{T} is bool", V, f"{V} is None", f"{V} is False", f"{V} is True", f"{T} is None"
+    keys = [BOOL, TRUTHY, NONE, FALSE, TRUE, TYPED]
 
     def consistent(v) -> bool:
         if v[NONE] and (v[TRUTHY] or v[FALSE] or v[TRUE]):
@@ -582,21 +597,34 @@ def _cache_value_table(ctx: Ctx, cc: ClassInfo) -> None:
             return False
         return True
 
-    def effect(o) -> str:
-        acts = []
-        for n in o.passed:
-            if n.kind != "stmt" or n.ast is None:
-                continue
-            t = norm(n.ast)
-            if isinstance(n.ast, ast.Assign) and isinstance(n.ast.targets[0], ast.Subscript) and astq.is_name(n.ast.targets[0].value, "self"):
-                acts.append("set-valueless" if norm(n.ast.value) == "None" else "set-str" if norm(n.ast.value).startswith("str(") else f"set-other:{norm(n.ast.value)}")
-            elif "self.pop(" in t or t.startswith("del self["):
-                acts.append("remove")
-        return "+".join(acts) or "nothing"
+    def on_event(a, ev, st):
+        if ev[0] == "mut" and ev[1] == "":
+            if ev[2] == "__setitem__" and len(ev[3]) == 2:
+                val = ev[3][1]
+                n = H.P(val)
+                kind = "set-valueless" if val == "None" else "set-str" if isinstance(n, ast.Call) and dotted(n.func) == "str" else f"set-other:{val}"
+            elif ev[2] in ("pop", "__delitem__", "discard"):
+                kind = "remove"
+            else:
+                kind = f"other:{ev[2]}"
+            if ev[3] and ev[3][0] != "__p1__":
+                kind += f" under key `{ev[3][0]}`"
+            return (a + (kind,))[-4:]
+        return a
 
     bad = []
-    rows = decision_table(cfg, [BOOL, TRUTHY, NONE, FALSE, TRUE, TYPED], consistent)
-    for v, outs in rows:
+    rows = 0
+    unknown: set[str] = set()
+    for bits in itertools.product((False, True), repeat=len(keys)):
+        v = dict(zip(keys, bits))
+        if not consistent(v):
+            continue
+        rows += 1
+        facts = dict(v)
+        facts[T] = not v[TYPED] if not v[BOOL] else True  # truthiness of the type argument: None is falsy, a type is truthy
+        ex = H.Exec(repo, cc, on_event=on_event)
+        outs = [o for o in ex.run_function(fi, auto0=(), facts0=facts) if o.kind == "ret"]
+        unknown |= {k for k in ex.unknown_forks if V in k or T in k}
         if v[BOOL]:
             want = "set-valueless" if v[TRUTHY] else "remove"
         elif v[NONE] or v[FALSE]:
@@ -605,8 +633,12 @@ def _cache_value_table(ctx: Ctx, cc: ClassInfo) -> None:
             want = "set-valueless"
         else:
             want = "set-str"
-        got = sorted({effect(o) for o in outs})
+        # the effect of a path: the changes it makes to the dict; a path that makes none and has found the key absent
+        # (dict.pop(key, None) on a missing key, or an explicit membership guard) has the effect of a removal
+        got = sorted({"+".join(o.st.auto) or ("remove" if o.st.facts.get("__p1__ in __self__") is False else "nothing") for o in outs})
         if got != [want]:
             bad.append(f"[bool directive={v[BOOL]}, truthy={v[TRUTHY]}, None={v[NONE]}, False={v[FALSE]}, True={v[TRUE]}] expected {want}, got {got}")
-    ctx.floor("R16.6", "decision rows of _set_cache_value", len(rows), 8)
-    ctx.ob("R16.6", "_set_cache_value: boolean directives follow the truthiness of the value; others None/False remove, True valueless, else str(value)", not bad, "; ".join(bad[:3]) + (f" (+{len(bad) - 3} more)" if len(bad) > 3 else "") if bad else f"{len(rows)} rows agree", fi, fi.node, "cache value decision table")
+    if bad and unknown:
+        raise AnalysisError(f"_set_cache_value branches on conditions the decision table does not model: {sorted(unknown)[:4]}")
+    ctx.floor("R16.6", "decision rows of _set_cache_value", rows, 8)
+    ctx.ob("R16.6", "_set_cache_value: boolean directives follow the truthiness of the value; others None/False remove, True valueless, else str(value)", not bad, "; ".join(bad[:3]) + (f" (+{len(bad) - 3} more)" if len(bad) > 3 else "") if bad else f"{rows} rows agree", fi, fi.node, "cache value decision table")
